@@ -419,6 +419,10 @@ def programs(tier):
     add('for', [('for', I('l'), view([('plain', 'p', [b(I('item'))]), ('plain', 'q', [b(I('index'))])], [('text', [b(('mem', I('item'), 'k'))])]), None, None, 'k'),
                 ('for', ('mem', x, 'list'), ('block', [view(), ('text', ['t', b(I('j'))])]), 'i', 'j', None),
                 ('for', I('l'), view(ch=[('for', ('mem', I('item'), 's'), view([('plain', 'p', [b(('bin', '+', I('item'), I('u')))])]), 'u', 'v', '*this')]), None, None, None)])
+    # inner loop variables shadow the outer ones of the same (default) name; after the inner loop the outer ones are back
+    add('for, shadowing', [('for', I('l'), view(ch=[('for', ('mem', I('item'), 's'), view([('plain', 'p', [b(('bin', '+', I('item'), I('index')))])], [('text', [b(I('item'))])]), None, None, None),
+                                                      ('text', [b(I('index')), ':', b(('mem', I('item'), 'k'))])]), None, None, None),
+                           ('for', I('l'), view(ch=[('for', ('mem', I('a'), 's'), view([('plain', 'p', [b(I('a'))]), ('plain', 'q', [b(I('b'))])]), 'a', 'c', None)]), 'a', 'b', None)])
     add('block', [('block', [view(), ('text', ['t'])]), ('block', [view()], 'sl'), ('block', [('block', [('text', ['in'])])])])
     add('template is/data', [('tuse', 't', ('obj', [('kv', 'q', ('mem', x, 'k')), ('short', 'y')])), ('tuse', 't', None), tdef,
                              ('tdef', 'u', [('text', ['u', b(I('q'))]), ('if', [(I('y'), view())])]), ('tuse', 'u', ('obj', [('spread', z), ('kv', 'q', L('int', '1', 1))]))])
